@@ -2,7 +2,7 @@
 """writes spec/mc/MC_Chain_<name>_<tier>.cfg from the table below"""
 import os
 ROOT = os.path.dirname(os.path.dirname(os.path.abspath(__file__)))
-INV = "InvAtomic InvEffective InvReads InvReply InvEvents InvScriptUsed InvOneRespPerMsg InvPrivate"
+INV = "InvAtomic InvEffective InvReads InvReply InvEvents InvScriptUsed InvOneRespPerMsg InvPrivate InvConserve"
 #        name        calls          menu          genesis        denoms            mods            (maxtx, fuel, level) quick / thorough
 TABLE = [
  ("tree",    "TreeCalls",   "TreeMenu",   "Genesis0",     '{"eth"}',        "Mods0",         (1, 5, 1), (1, 7, 2)),
